@@ -1068,7 +1068,15 @@ impl Engine {
             }
             other => {
                 self.violate("C01", "C01.read-count", "write failed", format!("write failed with {}", other.short()));
-                return;
+                // deciding another property: a write that failed before accepting a single byte
+                // leaves a well-defined obligation (nothing changed, the old contents must survive
+                // the next flush), so the history goes on
+                if self.flags.prop != "C01" && accepted == 0 && matches!(other, OpRes::Err(_)) {
+                    self.aborted = false;
+                    self.count("unexpected_write_errors_adopted");
+                } else {
+                    return;
+                }
             }
         }
         if accepted < 0 || accepted as usize > len {
